@@ -252,6 +252,10 @@ def replay(ctx):
     if 'spec' not in r:
         print('nothing to re-run for this record')
         return
+    import c10_sizes
+    c10_sizes.install_walker()
+    if str(r.get('kind', '')).startswith('sizes-') or (r.get('kind') == 'dialect' and 'size' in r):
+        return c10_sizes.replay(ctx, r)
     spec = T.Spec.from_json(r['spec'])
     cases = None
     if 'value' in r:
@@ -313,8 +317,10 @@ def run(ctx):
         import c10_helpers
         import c10_ir
         import c10_logic
+        import c10_sizes
+        c10_sizes.install_walker()
         parsed = c10_helpers.regenerate(ctx)
-        ex = ThreadPoolExecutor(max_workers=4)
+        ex = ThreadPoolExecutor(max_workers=5)
         f_props = ex.submit(ctx.coq_props)
         f_help = ex.submit(c10_helpers.run, ctx, parsed, random.Random(ctx.seed * 7919 + 1)) if parsed is not None else None
         f_hir = ex.submit(c10_ir.helpers_vs_model, ctx, 60 if ctx.quick else 600, random.Random(ctx.seed * 7919 + 2))
@@ -324,6 +330,8 @@ def run(ctx):
         ctx.log('known findings replayed: %d of %d still reproduce' % (len(active), len(findings)))
         ctx.extra['regions_excluded'] = active
         A.ACTIVE = set(active)
+        # sizes at and above 2^16 / 2^24 (quantity fields, length forms): static vs the Coq model + one compiled module
+        f_sizes = ex.submit(c10_sizes.run, ctx, random.Random(ctx.seed * 7919 + 4), active)
         if ctx.quick:
             preps = spine_a(ctx, active, 24, 3, 12)
         else:
@@ -332,7 +340,8 @@ def run(ctx):
         c09_ir.run_units(ctx, preps, 4 if ctx.quick else 80)
         ctx.log('IR: generated functions vs Python codec and binary done')
         for f, what in ((f_help, 'helpers: compiled OER helper block vs Coq model'), (f_hir, 'IR: parsed OER helper block vs Coq model'),
-                        (f_logic, 'logic: static length arithmetic vs Coq model')):
+                        (f_logic, 'logic: static length arithmetic vs Coq model'),
+                        (f_sizes, 'sizes: quantity fields / length forms up to 2^32-1 vs Coq model, 2^16.. elements compiled')):
             if f is not None:
                 f.result()
                 ctx.log(what + ' done')
